@@ -76,6 +76,10 @@ func (vmi *Vm) String() string {
 // in the menu renderer.
 func (vmi *Vm) WithMenuSeparator(sep string) *Vm {
 	vmi.menuSeparator = sep
+	// the menu created together with the Vm uses it aswell
+	if sep != "" && vmi.mn != nil {
+		vmi.mn = vmi.mn.WithSeparator(sep)
+	}
 	return vmi
 }
 
